@@ -267,10 +267,23 @@ def run(ctx):
     for cname in ('Line', 'QuadraticBezier', 'CubicBezier', 'Arc'):
         cls = mdl.cls('path.' + cname)
         init = cls.method('__init__')
-        ctor_fields = {n.attr for n in ast.walk(init.node) if isinstance(n, ast.Attribute) and isinstance(n.ctx, ast.Store) and self_attr(n)}
+        # the construction phase: __init__ and every method it reaches through self.<method>() calls (e.g. _parameterize and
+        # helpers it is split into).  What these store is derived state of the constructor, not a memo.
+        ctor_phase = {'__init__'}
+        work = [init]
+        while work:
+            f_ = work.pop()
+            for c_ in walk_no_nested(f_.node):
+                if isinstance(c_, ast.Call) and isinstance(c_.func, ast.Attribute) and self_attr(c_.func) and c_.func.attr in cls.methods \
+                        and c_.func.attr not in ctor_phase:
+                    ctor_phase.add(c_.func.attr)
+                    work.append(cls.methods[c_.func.attr])
+        ctor_fields = set()
+        for nm_ in ctor_phase:
+            ctor_fields |= {n.attr for n in ast.walk(cls.methods[nm_].node) if isinstance(n, ast.Attribute) and isinstance(n.ctx, ast.Store) and self_attr(n)}
         memos = {}
         for fi in cls.all_funcs():
-            if fi.name in ('__init__', '_parameterize'):
+            if fi.name in ctor_phase:
                 continue
             for n in walk_no_nested(fi.node):
                 tgt = None
@@ -1314,16 +1327,23 @@ def _path_histories(ctx, mdl, PathC):
                 segs = [it.construct('path.Line', pts[k], pts[(k + 1) % 3]) for k in range(3)]
                 p = it.construct('path.Path', *segs)
                 new = it.construct('path.Line', Rat.const(complex(5, 5)), Rat.const(complex(7, 6)))
-                first = it.call_method(p, oname)
+                from svtstatic.values import PyRaise
+
+                def ask(q):
+                    try:
+                        return it.call_method(q, oname)
+                    except PyRaise as e:        # e.g. isclosed() asserts continuity: the refusal is the answer compared
+                        return ('raises', e.exc_name)
+                first = ask(p)
                 a = [new if x == 'NEW' else (Rat.const(complex(9, -9)) if x == 'PT' else x) for x in margs]
                 if mname.endswith(':setter'):
                     f = PathC.setters[mname.split(':')[0]]
                     it.call_closure(Closure(f, f.node, None, f.module, p, PathC), a, {})
                 else:
                     it.call_method(p, mname, *a)
-                after = it.call_method(p, oname)
+                after = ask(p)
                 fresh = it.construct('path.Path', *list(p.attrs['_segments']))
-                return after, it.call_method(fresh, oname)
+                return after, ask(fresh)
 
             def judge2(v):
                 after, fresh = v
